@@ -94,24 +94,29 @@ def Sys.subExpire (sys : Sys) (sid : Nat) : Sys :=
   | none => sys
   | some e => sys.setSubState sid (e.st.turn (.expire sys.clock)).1
 
-/-- The pull loop of one open stream: pull until the backlog is empty, one response per
-    non-empty pull. `fuel` bounds the number of pulls (each takes at least one message). -/
-def drainStream (k : Nat) : Nat → Sys → Sys
+/-- The pull loop of open stream `k` on subscription `sid`: pull until the backlog is empty, one
+    response per non-empty pull. `fuel` bounds the number of pulls (each takes at least one message). -/
+def drainStream (k sid : Nat) : Nat → Sys → Sys
   | 0, sys => sys
   | fuel + 1, sys =>
     match sys.streams.find? (·.k == k) with
     | none => sys
     | some s =>
-      if s.ended then sys
-      else match sys.findSubById s.sid with
+      if s.ended || s.sid != sid then sys
+      else match sys.findSubById sid with
         | none => sys
         | some e =>
           if e.st.backlog.isEmpty then sys
           else
-            let (sys1, o) := sys.subTurn s.sid (.pull s.max16 sys.clock)
+            let (sys1, o) := sys.subTurn sid (.pull s.max16 sys.clock)
             let sys2 := { sys1 with streams := sys1.streams.map (fun x =>
               if x.k == k then { x with outbox := x.outbox ++ [.msgs o.delivered] } else x) }
-            drainStream k fuel sys2
+            drainStream k sid fuel sys2
+
+def Sys.backlogNonEmpty (sys : Sys) (sid : Nat) : Bool :=
+  match sys.findSubById sid with
+  | none => false
+  | some e => !e.st.backlog.isEmpty
 
 def Sys.subLoad (sys : Sys) (sid : Nat) : Nat :=
   match sys.findSubById sid with
@@ -121,7 +126,23 @@ def Sys.subLoad (sys : Sys) (sid : Nat) : Nat :=
 /-- Let every open stream on subscription `sid` drain it. -/
 def Sys.drainSub (sys : Sys) (sid : Nat) : Sys :=
   (sys.streams.filter (fun s => s.sid == sid && !s.ended)).foldl
-    (fun acc s => drainStream s.k (acc.subLoad sid) acc) sys
+    (fun acc s => drainStream s.k sid (acc.subLoad sid) acc) sys
+
+/-- One mailbox request to subscription actor `sid`, as its consumers see it: the turn, the
+    loop's expiry re-check, and — when that leaves messages queued — the parked StreamingPull
+    loops drain them. -/
+def Sys.subReq (sys : Sys) (sid : Nat) (t : SubTurn) : Sys × SubOut :=
+  let (s1, o) := sys.subTurn sid t
+  (s1.drainSub sid, o)
+
+/-- A read-only request (`GetInfo`, `GetStats`) is still a mailbox turn: afterwards the loop takes
+    whatever has expired by now (the deadline may have passed without the millisecond-granular
+    timer having fired yet). -/
+def Sys.touch (sys : Sys) (sid : Nat) : Sys := (sys.subExpire sid).drainSub sid
+
+def Sys.touchAll (sys : Sys) : List Nat → Sys
+  | [] => sys
+  | sid :: rest => (sys.touch sid).touchAll rest
 
 /-- The earliest armed expiry timer: minimal `(tick, sid)`. -/
 def Sys.nextTimer (sys : Sys) : Option (Nat × Nat) :=
@@ -334,7 +355,7 @@ def Sys.rpc (sys : Sys) : Req → Sys × Resp
     | some n =>
       match sys.findSub n with
       | none => (sys, .err .notFound)
-      | some e => (sys, .sub (sys.subRes e))
+      | some e => (sys.touch e.sid, .sub (sys.subRes e))
   | .listSubs project size token =>
     match parsePaging size (bytesToNats token) with
     | none => (sys, .err .invalidArgument)
@@ -342,9 +363,10 @@ def Sys.rpc (sys : Sys) : Req → Sys × Resp
       match parseProject project with
       | none => (sys, .err .invalidArgument)
       | some proj =>
-        let all := (sys.subs.filter (fun e => e.name.1 == proj)).map sys.subRes
+        let all := sys.subs.filter (fun e => e.name.1 == proj)
         let (pg, next) := Sys.listPage all p
-        (sys, .subs pg next)
+        -- `get_info` on every subscription of the page
+        (sys.touchAll (pg.map (·.sid)), .subs (pg.map sys.subRes) next)
   | .deleteSub raw =>
     match parseSubName raw with
     | none => (sys, .err .invalidArgument)
@@ -381,7 +403,12 @@ def Sys.rpc (sys : Sys) : Req → Sys × Resp
       | some e =>
         let max16 := i32AsU16 max
         let (sys1, o) := sys.subTurn e.sid (.pull max16 sys.clock)
-        if !o.delivered.isEmpty || ri then (sys1, .msgs o.delivered)
+        if !o.delivered.isEmpty || ri then (sys1.drainSub e.sid, .msgs o.delivered)
+        else if sys1.backlogNonEmpty e.sid then
+          -- the loop's expiry re-check after the empty pull queued messages and signalled: the
+          -- waiting pull is woken at once and pulls again
+          let (sys3, o3) := sys1.subTurn e.sid (.pull max16 sys1.clock)
+          (sys3, .msgs o3.delivered)
         else
           -- blocked: wait for this subscription's next expiry or for the 5 minute limit
           let frac := sys.clock % 1000
@@ -406,7 +433,7 @@ def Sys.rpc (sys : Sys) : Req → Sys × Resp
       | some n =>
         match sys.findSub n with
         | none => (sys, .err .notFound)
-        | some e => ((sys.subTurn e.sid (.ack as)).1, .empty)
+        | some e => ((sys.subReq e.sid (.ack as)).1, .empty)
   | .modAck raw secs ids =>
     match parseMods sys.clock ids (ids.map (fun _ => secs)) with
     | none => (sys, .err .invalidArgument)
@@ -434,7 +461,12 @@ def Sys.streamOpen (sys : Sys) (k : Nat) (rawSub : Bytes) (maxMsgs : Int) : Sys 
       | some m16 =>
         let s : Stream := { k := k, sid := e.sid, max16 := m16, outbox := [], ended := false }
         let sys1 : Sys := { sys with streams := sys.streams.filter (fun x => x.k != k) ++ [s] }
-        (sys1.drainSub e.sid, .ok)
+        -- the pull loop starts with a pull, whatever the backlog: a mailbox turn (`Sys.subReq`)
+        let (sys2, o) := sys1.subTurn e.sid (.pull m16 sys1.clock)
+        let sys3 : Sys := if o.delivered.isEmpty then sys2 else
+          { sys2 with streams := sys2.streams.map (fun x =>
+              if x.k == k then { x with outbox := x.outbox ++ [.msgs o.delivered] } else x) }
+        (sys3.drainSub e.sid, .ok)
 
 structure StreamCtl where
   subscription : Bytes
@@ -470,9 +502,11 @@ def Sys.streamSend (sys : Sys) (k : Nat) (c : StreamCtl) : Sys :=
     else match validateCtl sys.clock c with
       | .error st => sys.endStream k st
       | .ok (as, mods) =>
-        let sys1 := if as.isEmpty then sys else (sys.subTurn s.sid (.ack as)).1
-        let sys2 := if mods.isEmpty then sys1 else (sys1.subTurn s.sid (.modify mods)).1
-        sys2.drainSub s.sid
+        -- two mailbox requests. (When the first one's expiry re-check queues messages, the
+        -- stream's own pull loop races with the second request inside tokio's `merge`; the
+        -- sequential generator flushes expiries first, so both orders coincide — DESIGN D.5.)
+        let sys1 := if as.isEmpty then sys else (sys.subReq s.sid (.ack as)).1
+        if mods.isEmpty then sys1 else (sys1.subReq s.sid (.modify mods)).1
 
 /-- Read (and clear) what the stream has produced. -/
 def Sys.streamRead (sys : Sys) (k : Nat) : Sys × Option (List StreamItem × Bool) :=
@@ -495,17 +529,22 @@ def Sys.advance (sys : Sys) (d : Nat) : Sys :=
   if target < ceilMs sys.clock then { sys with clock := target }
   else Sys.advanceTo 0 1000000 target { sys with clock := ceilMs sys.clock }
 
-/-- `get_stats` of a live subscription: (outstanding, backlog, topic display). -/
-def Sys.stats (sys : Sys) (raw : Bytes) : Option (Nat × Nat × Bytes) :=
+/-- The harness's `stats`: `get_stats` twice, the second answer — (outstanding, backlog, topic
+    display) after the first one's mailbox turn has taken what had expired (see `Sys.touch`). -/
+def Sys.stats (sys : Sys) (raw : Bytes) : Sys × Option (Nat × Nat × Bytes) :=
   match parseSubName raw with
-  | none => none
+  | none => (sys, none)
   | some n =>
     match sys.findSub n with
-    | none => none
+    | none => (sys, none)
     | some e =>
-      some (e.st.out.len, e.st.backlog.length,
-        match sys.findTopicById e.topicId with
-        | some t => displayTopic t.name
-        | none => displayTopic deletedTopicName)
+      let sys1 := sys.touch e.sid
+      match sys1.findSubById e.sid with
+      | none => (sys1, none)
+      | some e1 =>
+        (sys1, some (e1.st.out.len, e1.st.backlog.length,
+          match sys.findTopicById e.topicId with
+          | some t => displayTopic t.name
+          | none => displayTopic deletedTopicName))
 
 end Deltio
